@@ -34,60 +34,132 @@ theorem toNat_inj_canon (w : Nat) {a b : List Nat} (ha : LimbsOk w a) (hb : Limb
     · have := toNat_lt_of_length_lt w hb hza h; omega
   exact toNat_inj_len w a b hl ha hb he
 
-theorem eqE_spec (w : Nat) {a b : EI} (ha : Canon w a) (hb : Canon w b) :
-    eqE a b = decide (toNat w a.limbs = toNat w b.limbs) := by
-  unfold eqE
-  by_cases h : a.limbs = b.limbs
-  · simp [h]
-  · have : toNat w a.limbs ≠ toNat w b.limbs := fun he => h (toNat_inj_canon w ha.1 hb.1 ha.2 hb.2 he)
-    simp [h, this]
+/-- canonical zero test in terms of the value -/
+theorem isZero_iff_toNat {w : Nat} {x : EI} (h : Canon w x) : isZero x = true ↔ toNat w x.limbs = 0 := by
+  rw [isZero_canon h]
+  constructor
+  · intro h0; rw [h0]; rfl
+  · intro h0
+    by_contra hne
+    have := toNat_ge_of_noLeadingZero w x.limbs hne h.2
+    have : 0 < (2 ^ w) ^ (x.limbs.length - 1) := Nat.pow_pos (Nat.two_pow_pos w)
+    omega
 
-theorem ltE_spec (w : Nat) {a b : EI} (ha : Canon w a) (hb : Canon w b) :
-    ltE a b = decide (toNat w a.limbs < toNat w b.limbs) := by
-  unfold ltE
-  by_cases h1 : a.limbs.length < b.limbs.length
-  · have := toNat_lt_of_length_lt w ha.1 hb.2 h1
+theorem isZero_false_iff {w : Nat} {x : EI} (h : Canon w x) : isZero x = false ↔ toNat w x.limbs ≠ 0 := by
+  have := isZero_iff_toNat h
+  cases hz : isZero x <;> simp_all
+
+theorem ltMag_spec (w : Nat) {a b : List Nat} (ha : LimbsOk w a) (hb : LimbsOk w b)
+    (hza : NoLeadingZero a) (hzb : NoLeadingZero b) : ltMag a b = decide (toNat w a < toNat w b) := by
+  unfold ltMag
+  by_cases h1 : a.length < b.length
+  · have := toNat_lt_of_length_lt w ha hzb h1
     simp [h1, this]
-  · by_cases h2 : a.limbs.length > b.limbs.length
-    · have := toNat_lt_of_length_lt w hb.1 ha.2 h2
+  · by_cases h2 : a.length > b.length
+    · have := toNat_lt_of_length_lt w hb hza h2
       simp only [h1, h2, if_false, if_true]
       symm; apply decide_eq_false; omega
-    · have hl : a.limbs.length = b.limbs.length := by omega
+    · have hl : a.length = b.length := by omega
       simp only [h1, h2, if_false]
-      rw [cmpLE_spec w _ _ hl ha.1 hb.1]
-      rcases Nat.lt_trichotomy (toNat w a.limbs) (toNat w b.limbs) with h | h | h
+      rw [cmpLE_spec w _ _ hl ha hb]
+      rcases Nat.lt_trichotomy (toNat w a) (toNat w b) with h | h | h
       · rw [Nat.compare_eq_lt.mpr h]; simp [h]
       · rw [Nat.compare_eq_eq.mpr h]; simp [h]
       · rw [Nat.compare_eq_gt.mpr h]
-        have : ¬ toNat w a.limbs < toNat w b.limbs := by omega
+        have : ¬ toNat w a < toNat w b := by omega
         simp [this]
 
-/-- all six comparison operators agree with the integer order on canonical non-negative operands. -/
-theorem cmpMask_spec (w : Nat) {a b : EI} (ha : Canon w a) (hb : Canon w b)
-    (hsa : a.sign = false) (hsb : b.sign = false) :
+/-- `operator==` is integer equality on canonical objects (a zero with a set sign flag included). -/
+theorem eqE_spec (w : Nat) {a b : EI} (ha : Canon w a) (hb : Canon w b) :
+    eqE a b = decide (toInt w a = toInt w b) := by
+  unfold eqE
+  by_cases hza : toNat w a.limbs = 0
+  · by_cases hzb : toNat w b.limbs = 0
+    · have h1 := (isZero_iff_toNat ha).mpr hza
+      have h2 := (isZero_iff_toNat hb).mpr hzb
+      have : toInt w a = toInt w b := by unfold toInt; rw [hza, hzb]; split <;> split <;> simp
+      simp [h1, h2, this]
+    · have h2 := (isZero_false_iff hb).mpr hzb
+      have hne : a.limbs ≠ b.limbs := by intro h; rw [h] at hza; exact hzb hza
+      have : toInt w a ≠ toInt w b := by
+        unfold toInt; rw [hza]; split <;> split <;> simp <;> omega
+      have hl : (a.limbs == b.limbs) = false := by simpa using hne
+      simp [h2, hl, this]
+  · have h1 := (isZero_false_iff ha).mpr hza
+    by_cases hl : a.limbs = b.limbs
+    · by_cases hs : a.sign = b.sign
+      · have : toInt w a = toInt w b := by unfold toInt; rw [hl, hs]
+        simp [h1, hl, hs, this]
+      · have : toInt w a ≠ toInt w b := by
+          rw [hl] at hza
+          unfold toInt; rw [hl]
+          cases hsa : a.sign <;> cases hsb : b.sign <;> simp_all
+        have hs' : (a.sign == b.sign) = false := by simpa using hs
+        simp [h1, hs', this]
+    · have hv : toNat w a.limbs ≠ toNat w b.limbs := fun he => hl (toNat_inj_canon w ha.1 hb.1 ha.2 hb.2 he)
+      have : toInt w a ≠ toInt w b := by
+        unfold toInt; split <;> split <;> simp <;> omega
+      have hl' : (a.limbs == b.limbs) = false := by simpa using hl
+      simp [h1, hl', this]
+
+theorem toInt_neg_iff (w : Nat) {x : EI} (h : Canon w x) : (x.sign && !isZero x) = decide (toInt w x < 0) := by
+  by_cases hz : toNat w x.limbs = 0
+  · have := (isZero_iff_toNat h).mpr hz
+    simp [this, toInt, hz]
+  · have := (isZero_false_iff h).mpr hz
+    cases hs : x.sign
+    · simp [toInt, hs]
+    · simp [this, toInt, hs]; omega
+
+/-- `operator<` is the integer order on canonical objects. -/
+theorem ltE_spec (w : Nat) {a b : EI} (ha : Canon w a) (hb : Canon w b) :
+    ltE a b = decide (toInt w a < toInt w b) := by
+  unfold ltE
+  simp only []
+  rw [toInt_neg_iff w ha, toInt_neg_iff w hb, ltMag_spec w hb.1 ha.1 hb.2 ha.2, ltMag_spec w ha.1 hb.1 ha.2 hb.2]
+  have hA : toInt w a = (toNat w a.limbs : Int) ∨ toInt w a = -(toNat w a.limbs : Int) := by
+    unfold toInt; split <;> simp
+  have hB : toInt w b = (toNat w b.limbs : Int) ∨ toInt w b = -(toNat w b.limbs : Int) := by
+    unfold toInt; split <;> simp
+  by_cases h1 : toInt w a < 0 <;> by_cases h2 : toInt w b < 0
+  · -- both negative
+    have ea : toInt w a = -(toNat w a.limbs : Int) := by rcases hA with h | h <;> omega
+    have eb : toInt w b = -(toNat w b.limbs : Int) := by rcases hB with h | h <;> omega
+    simp only [h1, h2, decide_true, bne_self_eq_false, Bool.false_eq_true, if_false, if_true]
+    by_cases h3 : toNat w b.limbs < toNat w a.limbs
+    · have : toInt w a < toInt w b := by omega
+      simp [h3, this]
+    · have : ¬ toInt w a < toInt w b := by omega
+      simp [h3, this]
+  · have : toInt w a < toInt w b := by omega
+    simp [h1, h2, this]
+  · have : ¬ toInt w a < toInt w b := by omega
+    simp [h1, h2, this]
+  · have ea : toInt w a = (toNat w a.limbs : Int) := by rcases hA with h | h <;> omega
+    have eb : toInt w b = (toNat w b.limbs : Int) := by rcases hB with h | h <;> omega
+    simp only [h1, h2, decide_false, bne_self_eq_false, Bool.false_eq_true, if_false]
+    by_cases h3 : toNat w a.limbs < toNat w b.limbs
+    · have : toInt w a < toInt w b := by omega
+      simp [h3, this]
+    · have : ¬ toInt w a < toInt w b := by omega
+      simp [h3, this]
+
+/-- all six comparison operators agree with the integer order on canonical operands, whatever their signs. -/
+theorem cmpMask_spec (w : Nat) {a b : EI} (ha : Canon w a) (hb : Canon w b) :
     cmpMask a b = ElasticSpec.cmpMask (toInt w a) (toInt w b) := by
   unfold cmpMask ElasticSpec.cmpMask
   rw [eqE_spec w ha hb, ltE_spec w ha hb, ltE_spec w hb ha]
-  simp only [toInt, hsa, hsb, Bool.false_eq_true, if_false]
-  rcases Nat.lt_trichotomy (toNat w a.limbs) (toNat w b.limbs) with h | h | h
-  · have h1 : ¬ toNat w a.limbs = toNat w b.limbs := by omega
-    have h2 : ¬ toNat w b.limbs < toNat w a.limbs := by omega
-    have h3 : ((toNat w a.limbs : Int) < toNat w b.limbs) := by exact_mod_cast h
-    have h4 : ¬ ((toNat w a.limbs : Int) = toNat w b.limbs) := by exact_mod_cast h1
-    have h5 : ¬ ((toNat w a.limbs : Int) > toNat w b.limbs) := by omega
-    have h6 : ((toNat w a.limbs : Int) ≤ toNat w b.limbs) := by omega
-    have h7 : ¬ ((toNat w a.limbs : Int) ≥ toNat w b.limbs) := by omega
-    simp [h, h1, h2, h3, h4, h5, h6, h7]
-  · have h2 : ¬ toNat w b.limbs < toNat w a.limbs := by omega
-    have h1 : ¬ toNat w a.limbs < toNat w b.limbs := by omega
-    simp [h]
-  · have h1 : ¬ toNat w a.limbs = toNat w b.limbs := by omega
-    have h2 : ¬ toNat w a.limbs < toNat w b.limbs := by omega
-    have h3 : ¬ ((toNat w a.limbs : Int) < toNat w b.limbs) := by omega
-    have h4 : ¬ ((toNat w a.limbs : Int) = toNat w b.limbs) := by exact_mod_cast h1
-    have h5 : ((toNat w a.limbs : Int) > toNat w b.limbs) := by omega
-    have h6 : ¬ ((toNat w a.limbs : Int) ≤ toNat w b.limbs) := by omega
-    have h7 : ((toNat w a.limbs : Int) ≥ toNat w b.limbs) := by omega
-    simp [h, h1, h2, h3, h4, h5, h6, h7]
+  rcases Int.lt_trichotomy (toInt w a) (toInt w b) with h | h | h
+  · have h1 : ¬ toInt w a = toInt w b := by omega
+    have h2 : ¬ toInt w b < toInt w a := by omega
+    have h3 : toInt w a ≤ toInt w b := by omega
+    have h4 : ¬ toInt w a ≥ toInt w b := by omega
+    simp [h, h1, h2, h3, h4]
+  · simp [h]
+  · have h1 : ¬ toInt w a = toInt w b := by omega
+    have h2 : ¬ toInt w a < toInt w b := by omega
+    have h3 : ¬ toInt w a ≤ toInt w b := by omega
+    have h4 : toInt w a ≥ toInt w b := by omega
+    simp [h, h1, h2, h3, h4]
 
 end UVerif.EInt
